@@ -74,3 +74,21 @@ impl<'a> IntoIterator for &'a Slots {
         self.0.iter()
     }
 }
+
+#[cfg(arc_swap_verif)]
+impl Slots {
+    /// (address, current value) of every fast slot, read without the hooks.
+    pub(super) fn verif_raw(&self) -> alloc::vec::Vec<(usize, usize)> {
+        self.0
+            .iter()
+            .map(|d| (&d.0 as *const _ as usize, (d.0).0.load(Relaxed)))
+            .collect()
+    }
+}
+
+#[cfg(arc_swap_verif)]
+impl Local {
+    pub(super) fn verif_offset(&self) -> usize {
+        self.offset.get()
+    }
+}
